@@ -64,6 +64,7 @@ fn main() {
         std::process::exit(supervise(&args, &prop, tier, seed, replay.as_deref()));
     }
     lv::abort::install();
+    lv::abort::start_watcher(cpu_limit(tier), match tier { Tier::Quick => 800, Tier::Thorough => 5000 });
     install_panic_hook();
     let mut run = Run::new(&prop, tier, seed);
     run.leg = leg;
@@ -97,63 +98,136 @@ fn main() {
     std::process::exit(code);
 }
 
-/// Run `lv <args> --child`, pass its output through, and turn a death by signal into a verdict.
+struct ChildEnd {
+    code: Option<i32>,
+    abort: Option<lv::abort::AbortLine>,
+    stuck: Option<(String, String, u64, u64)>,
+    tail: Vec<String>,
+}
+
+fn fatal_message(tail: &[String]) -> Option<String> {
+    tail.iter()
+        .rev()
+        .find(|l| {
+            l.contains("memory allocation of")
+                || l.contains("overflowed its stack")
+                || l.contains("panicked while processing panic")
+                || l.contains("cannot unwind")
+                || l.contains("capacity overflow")
+        })
+        .map(|l| lv::ctx::panic_class(l))
+}
+
+/// Run `lv <args> --child`, pass its output through, and turn a death by signal or a stuck case into a verdict.
 fn supervise(args: &[String], prop: &str, tier: Tier, seed: u64, replay: Option<&str>) -> i32 {
     use std::io::{BufRead, BufReader};
     use std::process::{Command, Stdio};
     let exe = std::env::current_exe().expect("current_exe");
-    let run_child = |extra: &[String]| -> (Option<i32>, Option<lv::abort::AbortLine>, Vec<String>) {
+    let run_child = |extra: &[String]| -> ChildEnd {
+        let mut end = ChildEnd { code: Some(2), abort: None, stuck: None, tail: Vec::new() };
         let mut c = match Command::new(&exe).args(extra).arg("--child").stdin(Stdio::null()).stderr(Stdio::piped()).spawn() {
             Ok(c) => c,
             Err(e) => {
                 eprintln!("ERROR cannot start the workload process: {}", e);
-                return (Some(2), None, Vec::new());
+                return end;
             }
         };
         let err = c.stderr.take().unwrap();
-        let mut abort_line = None;
-        let mut tail: Vec<String> = Vec::new();
         for line in BufReader::new(err).split(b'\n') {
             let Ok(line) = line else { break };
             let line = String::from_utf8_lossy(&line).to_string();
             eprintln!("{}", line);
-            if abort_line.is_none() {
+            if end.abort.is_none() {
                 if let Some(a) = lv::abort::parse_abort_line(&line) {
-                    abort_line = Some(a);
+                    end.abort = Some(a);
+                    continue;
+                }
+            }
+            if end.stuck.is_none() {
+                if let Some(st) = lv::abort::parse_stuck_line(&line) {
+                    end.stuck = Some(st);
                     continue;
                 }
             }
             if !line.trim().is_empty() && !line.starts_with("LV-ABORT") {
-                tail.push(line);
-                if tail.len() > 12 {
-                    tail.remove(0);
+                end.tail.push(line);
+                if end.tail.len() > 12 {
+                    end.tail.remove(0);
                 }
             }
         }
-        let st = c.wait().ok();
-        let code = st.and_then(|s| s.code());
-        (code, abort_line, tail)
+        end.code = c.wait().ok().and_then(|s| s.code());
+        end
     };
-    let (code, abort_line, tail) = run_child(args);
-    match code {
-        Some(c) if c != 134 && c != 139 => return c,
-        _ => {}
+    let probe = |sub: &str, idx: u64| -> ChildEnd {
+        let dir = format!("{}/target/abort-probe", lv::ctx::VERIF_DIR);
+        let _ = std::fs::create_dir_all(&dir);
+        let path = format!("{}/{}-{}-{}.json", dir, prop, std::process::id(), idx);
+        let rep = json::J::obj().set("property", prop).set("tier", tier.name()).set("seed", seed).set("sub", sub).set("index", idx);
+        let _ = std::fs::write(&path, rep.to_string_pretty());
+        let probe_args: Vec<String> = vec![prop.to_string(), "--tier".into(), tier.name().into(), "--seed".into(), seed.to_string(), "--replay".into(), path.clone()];
+        eprintln!("[supervisor] replaying {}[{}] alone in a fresh process", sub, idx);
+        let e = run_child(&probe_args);
+        let _ = std::fs::remove_file(&path);
+        e
+    };
+    let report = |sub: &str, idx: u64, sig: String, what: &str, tail: &[String]| -> i32 {
+        let mut run = Run::new(prop, tier, seed);
+        run.merged.cur_sub = sub.to_string();
+        run.merged.cur_idx = idx;
+        run.merged.violation(sig, json::J::obj().set("what", what).set("stderr_tail", json::J::A(tail.iter().map(|s| json::J::S(s.clone())).collect())));
+        run.assumptions
+            .push("the workload process did not finish; this evidence was written by the supervising process and only describes the fatal case".to_string());
+        run.finish()
+    };
+    let died = |c: Option<i32>| !matches!(c, Some(c) if c != 134 && c != 139);
+    let first = run_child(args);
+
+    // ---- a case that does not return
+    if first.code == Some(lv::abort::EXIT_STUCK) {
+        let Some((kind, sub, idx, cpu)) = first.stuck.clone() else {
+            println!("INCONCLUSIVE property={} the workload process reported a stuck case without naming it", prop);
+            return 2;
+        };
+        if kind != "cpu" {
+            println!("INCONCLUSIVE property={} case {}[{}] was in flight beyond the wall-clock limit without using CPU time (blocked); no verdict from a clock", prop, sub, idx);
+            return 2;
+        }
+        let sig = format!("a call does not return: the case burns more than {} s of CPU time on its own thread [{}]", cpu_limit(tier), sub);
+        if let Some(r) = replay {
+            println!("VIOLATION property={} replay={}", prop, r);
+            println!("  signature: {}", sig);
+            println!("REPLAY property={} violations=1 evaluations=0", prop);
+            return 1;
+        }
+        let again = probe(&sub, idx);
+        return match (&again.code, &again.stuck) {
+            (Some(c), Some((k, _, _, _))) if *c == lv::abort::EXIT_STUCK && k == "cpu" => report(
+                &sub,
+                idx,
+                sig,
+                "the case was stopped after burning the CPU budget (thread CPU time, independent of machine load) twice: inside the workload and replayed alone in a fresh process; every other case of this workload returns orders of magnitude sooner",
+                &again.tail,
+            ),
+            _ => {
+                println!("INCONCLUSIVE property={} case {}[{}] burnt {} s of CPU time inside the workload but returns when replayed alone", prop, sub, idx, cpu);
+                2
+            }
+        };
     }
-    // the workload process died from a signal
-    let what = tail
-        .iter()
-        .rev()
-        .find(|l| l.contains("memory allocation of") || l.contains("overflowed its stack") || l.contains("panicked while processing panic") || l.contains("panic in a function that cannot unwind") || l.contains("capacity overflow"))
-        .cloned()
-        .unwrap_or_else(|| "no message".to_string());
-    let what = lv::ctx::panic_class(&what);
-    let Some(a) = abort_line else {
-        println!("INCONCLUSIVE property={} the workload process died from a signal (exit {:?}) without naming the case in flight: {}", prop, code, what);
+
+    if !died(first.code) {
+        return first.code.unwrap_or(2);
+    }
+    // ---- the workload process died from a signal
+    let what = fatal_message(&first.tail).unwrap_or_else(|| "no message".to_string());
+    let Some(a) = first.abort else {
+        println!("INCONCLUSIVE property={} the workload process died from a signal (exit {:?}) without naming the case in flight: {}", prop, first.code, what);
         return 2;
     };
-    if replay.is_some() {
+    if let Some(r) = replay {
         // this was the replay of a single case: it killed the process again
-        println!("VIOLATION property={} replay={}", prop, replay.unwrap());
+        println!("VIOLATION property={} replay={}", prop, r);
         println!("  signature: the process is killed (signal {}: {}) [{}]", a.signal, what, a.sub);
         println!("REPLAY property={} violations=1 evaluations=0", prop);
         return 1;
@@ -165,38 +239,18 @@ fn supervise(args: &[String], prop: &str, tier: Tier, seed: u64, replay: Option<
             cands.push(*x);
         }
     }
-    let dir = format!("{}/target/abort-probe", lv::ctx::VERIF_DIR);
-    let _ = std::fs::create_dir_all(&dir);
     for idx in cands.iter().take(64) {
-        let path = format!("{}/{}-{}-{}.json", dir, prop, std::process::id(), idx);
-        let rep = json::J::obj().set("property", prop).set("tier", tier.name()).set("seed", seed).set("sub", a.sub.clone()).set("index", *idx);
-        if std::fs::write(&path, rep.to_string_pretty()).is_err() {
-            continue;
-        }
-        let probe_args: Vec<String> = vec![prop.to_string(), "--tier".into(), tier.name().into(), "--seed".into(), seed.to_string(), "--replay".into(), path.clone()];
-        eprintln!("[supervisor] replaying {}[{}] alone", a.sub, idx);
-        let (pc, pa, ptail) = run_child(&probe_args);
-        let _ = std::fs::remove_file(&path);
-        let died = !matches!(pc, Some(c) if c != 134 && c != 139);
-        if died {
-            let what2 = ptail
-                .iter()
-                .rev()
-                .find(|l| l.contains("memory allocation of") || l.contains("overflowed its stack") || l.contains("panicked while processing panic") || l.contains("cannot unwind"))
-                .map(|l| lv::ctx::panic_class(l))
-                .unwrap_or_else(|| what.clone());
-            let sig_no = pa.map(|x| x.signal).unwrap_or(a.signal);
-            let mut run = Run::new(prop, tier, seed);
-            run.merged.cur_sub = a.sub.clone();
-            run.merged.cur_idx = *idx;
-            run.merged.violation(
+        let p = probe(&a.sub, *idx);
+        if died(p.code) {
+            let what2 = fatal_message(&p.tail).unwrap_or_else(|| what.clone());
+            let sig_no = p.abort.as_ref().map(|x| x.signal).unwrap_or(a.signal);
+            return report(
+                &a.sub,
+                *idx,
                 format!("the process is killed (signal {}: {}) [{}]", sig_no, what2, a.sub),
-                json::J::obj()
-                    .set("what", "the case ends the whole process instead of returning or panicking; reproduced by replaying the case alone in a fresh process")
-                    .set("stderr_tail", json::J::A(ptail.iter().map(|s| json::J::S(s.clone())).collect())),
+                "the case ends the whole process instead of returning or panicking; reproduced by replaying the case alone in a fresh process",
+                &p.tail,
             );
-            run.assumptions.push("the workload process died from a signal; this evidence was written by the supervising process and only describes the fatal case".to_string());
-            return run.finish();
         }
     }
     println!(
@@ -207,4 +261,16 @@ fn supervise(args: &[String], prop: &str, tier: Tier, seed: u64, replay: Option<
         cands.len()
     );
     2
+}
+
+/// CPU seconds one case may burn on its worker thread (the largest legitimate case measured is far below; see
+/// `longest_case_cpu_s` in the evidence)
+fn cpu_limit(tier: Tier) -> u64 {
+    if let Some(v) = std::env::var("LV_CASE_CPU_S").ok().and_then(|s| s.parse().ok()) {
+        return v;
+    }
+    match tier {
+        Tier::Quick => 240,
+        Tier::Thorough => 900,
+    }
 }
